@@ -1,5 +1,423 @@
 package sym
 
-func (s *State) asmSearch(args []Value) Value {
-	panic(execAbort{"unsupported", "asm front end not built yet"})
+import (
+	"fmt"
+	"go/types"
+	"os"
+	"path/filepath"
+	"regexp"
+	"strconv"
+	"strings"
+	"sync"
+
+	"golang.org/x/tools/go/ssa"
+)
+
+// A small front end for the Plan 9 amd64 assembly in z/simd: the .s files are parsed from the
+// working tree on every run and executed symbolically. Anything outside the supported subset
+// aborts the path as unsupported (never skipped).
+
+type asmInstr struct {
+	op   string
+	args []string
+	line int
 }
+
+type asmFunc struct {
+	name   string
+	instrs []asmInstr
+	labels map[string]int
+	file   string
+}
+
+var asmCache = map[string]map[string]*asmFunc{}
+var asmMu sync.Mutex
+
+func parseAsmDir(dir string) (map[string]*asmFunc, error) {
+	asmMu.Lock()
+	defer asmMu.Unlock()
+	if m, ok := asmCache[dir]; ok {
+		return m, nil
+	}
+	files, _ := filepath.Glob(filepath.Join(dir, "*_amd64.s"))
+	out := map[string]*asmFunc{}
+	for _, f := range files {
+		b, err := os.ReadFile(f)
+		if err != nil {
+			return nil, err
+		}
+		var cur *asmFunc
+		for ln, line := range strings.Split(string(b), "\n") {
+			if i := strings.Index(line, "//"); i >= 0 {
+				line = line[:i]
+			}
+			line = strings.TrimSpace(line)
+			if line == "" || strings.HasPrefix(line, "#") {
+				continue
+			}
+			if strings.HasPrefix(line, "TEXT") {
+				m := regexp.MustCompile(`TEXT\s+·(\w+)\(SB\)`).FindStringSubmatch(line)
+				if m == nil {
+					return nil, fmt.Errorf("%s:%d: cannot parse TEXT line", f, ln+1)
+				}
+				cur = &asmFunc{name: m[1], labels: map[string]int{}, file: f}
+				out[m[1]] = cur
+				continue
+			}
+			if cur == nil {
+				return nil, fmt.Errorf("%s:%d: instruction outside TEXT", f, ln+1)
+			}
+			if strings.HasSuffix(line, ":") {
+				cur.labels[strings.TrimSuffix(line, ":")] = len(cur.instrs)
+				continue
+			}
+			fields := strings.SplitN(line, " ", 2)
+			in := asmInstr{op: strings.TrimSpace(fields[0]), line: ln + 1}
+			if len(fields) > 1 {
+				for _, a := range splitArgs(fields[1]) {
+					in.args = append(in.args, strings.TrimSpace(a))
+				}
+			}
+			cur.instrs = append(cur.instrs, in)
+		}
+	}
+	asmCache[dir] = out
+	return out, nil
+}
+
+func splitArgs(s string) []string {
+	var out []string
+	depth := 0
+	cur := strings.Builder{}
+	for _, r := range s {
+		switch {
+		case r == '(':
+			depth++
+			cur.WriteRune(r)
+		case r == ')':
+			depth--
+			cur.WriteRune(r)
+		case r == ',' && depth == 0:
+			out = append(out, cur.String())
+			cur.Reset()
+		default:
+			cur.WriteRune(r)
+		}
+	}
+	if strings.TrimSpace(cur.String()) != "" {
+		out = append(out, cur.String())
+	}
+	return out
+}
+
+type asmVal struct {
+	t *Term // numeric value (64-bit) — for pointers: byte offset relative to base object
+	p *Ptr  // non-nil: this register holds a pointer (base + t bytes)
+}
+
+type asmMachine struct {
+	s      *State
+	fn     *asmFunc
+	regs   map[string]asmVal
+	params map[string]asmVal // FP slots by offset
+	ret    map[int]*Term
+	cmpA   *Term
+	cmpB   *Term
+}
+
+var reMem = regexp.MustCompile(`^(-?(?:0x)?[0-9a-fA-F]*)\((\w+)\)(?:\((\w+)\*(\d)\))?$`)
+var reFP = regexp.MustCompile(`^(\w+)\+(\d+)\(FP\)$`)
+
+func (m *asmMachine) bad(in asmInstr, why string) {
+	panic(execAbort{"unsupported", fmt.Sprintf("asm %s:%d: %s %v: %s", filepath.Base(m.fn.file), in.line, in.op, in.args, why)})
+}
+
+func parseImm(a string) (uint64, bool) {
+	if !strings.HasPrefix(a, "$") {
+		return 0, false
+	}
+	v, err := strconv.ParseInt(a[1:], 0, 64)
+	if err != nil {
+		u, err2 := strconv.ParseUint(a[1:], 0, 64)
+		if err2 != nil {
+			return 0, false
+		}
+		return u, true
+	}
+	return uint64(v), true
+}
+
+var asmRegs = map[string]bool{"AX": true, "BX": true, "CX": true, "DX": true, "SI": true, "DI": true, "BP": true,
+	"R8": true, "R9": true, "R10": true, "R11": true, "R12": true, "R13": true, "R14": true, "R15": true}
+
+// read evaluates a source operand as a 64-bit value.
+func (m *asmMachine) read(in asmInstr, a string) asmVal {
+	if v, ok := parseImm(a); ok {
+		return asmVal{t: Const(64, v)}
+	}
+	if asmRegs[a] {
+		v, ok := m.regs[a]
+		if !ok {
+			m.bad(in, "read of uninitialised register "+a)
+		}
+		return v
+	}
+	if f := reFP.FindStringSubmatch(a); f != nil {
+		off, _ := strconv.Atoi(f[2])
+		v, ok := m.params[fmt.Sprint(off)]
+		if !ok {
+			m.bad(in, "unknown FP slot "+a)
+		}
+		return v
+	}
+	if f := reMem.FindStringSubmatch(a); f != nil {
+		disp := int64(0)
+		if f[1] != "" {
+			d, err := strconv.ParseInt(f[1], 0, 64)
+			if err != nil {
+				m.bad(in, "bad displacement")
+			}
+			disp = d
+		}
+		base, ok := m.regs[f[2]]
+		if !ok || base.p == nil {
+			m.bad(in, "memory operand whose base register does not hold a pointer")
+		}
+		off := Add(base.t, Const(64, uint64(disp)))
+		if f[3] != "" {
+			idx, ok := m.regs[f[3]]
+			if !ok || idx.p != nil {
+				m.bad(in, "bad index register")
+			}
+			sc, _ := strconv.Atoi(f[4])
+			off = Add(off, Mul(idx.t, Const(64, uint64(sc))))
+		}
+		p := ptrAdd(*base.p, off)
+		if p.SOff == nil && p.Off+8 > mustConcrete(m.s, p.Obj.Len) {
+			m.s.failAssert("asm-read-in-bounds", True, fmt.Sprintf("assembly reads 8 bytes at offset %d beyond the %d-byte object that holds the slice", p.Off, mustConcrete(m.s, p.Obj.Len)))
+			panic(execAbort{"pruned", "asm read outside the enclosing object"})
+		}
+		m.s.access(p, false)
+		return asmVal{t: m.s.loadRaw(p, 8)}
+	}
+	m.bad(in, "unsupported operand "+a)
+	return asmVal{}
+}
+
+func mustConcrete(s *State, t *Term) int {
+	if t.Op != OConst {
+		panic(execAbort{"unsupported", "asm memory access into object of symbolic length"})
+	}
+	return int(t.Val)
+}
+
+func (m *asmMachine) num(in asmInstr, a string) *Term {
+	v := m.read(in, a)
+	if v.p != nil {
+		m.bad(in, "pointer used as a number")
+	}
+	return v.t
+}
+
+func (m *asmMachine) writeReg(in asmInstr, a string, v asmVal) {
+	if !asmRegs[a] {
+		m.bad(in, "destination is not a register: "+a)
+	}
+	m.regs[a] = v
+}
+
+func low32(t *Term) *Term { return ZExt(Extract(t, 31, 0), 64) }
+
+func (m *asmMachine) run() {
+	pc := 0
+	steps := 0
+	for {
+		if pc >= len(m.fn.instrs) {
+			panic(execAbort{"unsupported", "asm: fell off the end of " + m.fn.name})
+		}
+		steps++
+		m.s.steps++
+		if steps > 100000 {
+			panic(execAbort{"unwind", "asm: step budget exhausted in " + m.fn.name})
+		}
+		in := m.fn.instrs[pc]
+		pc++
+		need := func(n int) {
+			if len(in.args) != n {
+				m.bad(in, "operand count")
+			}
+		}
+		switch in.op {
+		case "MOVQ":
+			need(2)
+			v := m.read(in, in.args[0])
+			if f := reFP.FindStringSubmatch(in.args[1]); f != nil {
+				off, _ := strconv.Atoi(f[2])
+				m.ret[off] = v.t
+			} else {
+				m.writeReg(in, in.args[1], v)
+			}
+		case "MOVL":
+			need(2)
+			v := low32(m.num(in, in.args[0]))
+			if f := reFP.FindStringSubmatch(in.args[1]); f != nil {
+				off, _ := strconv.Atoi(f[2])
+				m.ret[off] = v
+			} else {
+				m.writeReg(in, in.args[1], asmVal{t: v})
+			}
+		case "XORL":
+			need(2)
+			if in.args[0] == in.args[1] && asmRegs[in.args[0]] {
+				m.writeReg(in, in.args[1], asmVal{t: Const(64, 0)})
+			} else {
+				m.writeReg(in, in.args[1], asmVal{t: low32(BXor(m.num(in, in.args[1]), m.num(in, in.args[0])))})
+			}
+		case "ADDQ":
+			need(2)
+			d := m.read(in, in.args[1])
+			if d.p != nil {
+				m.writeReg(in, in.args[1], asmVal{t: Add(d.t, m.num(in, in.args[0])), p: d.p})
+			} else {
+				m.writeReg(in, in.args[1], asmVal{t: Add(d.t, m.num(in, in.args[0]))})
+			}
+		case "SUBQ":
+			need(2)
+			m.writeReg(in, in.args[1], asmVal{t: Sub(m.num(in, in.args[1]), m.num(in, in.args[0]))})
+		case "ADDL":
+			need(2)
+			m.writeReg(in, in.args[1], asmVal{t: low32(Add(m.num(in, in.args[1]), m.num(in, in.args[0])))})
+		case "SUBL":
+			need(2)
+			m.writeReg(in, in.args[1], asmVal{t: low32(Sub(m.num(in, in.args[1]), m.num(in, in.args[0])))})
+		case "SHRL":
+			need(2)
+			m.writeReg(in, in.args[1], asmVal{t: LShr(low32(m.num(in, in.args[1])), BAnd(m.num(in, in.args[0]), Const(64, 31)))})
+		case "SHRQ":
+			need(2)
+			m.writeReg(in, in.args[1], asmVal{t: LShr(m.num(in, in.args[1]), BAnd(m.num(in, in.args[0]), Const(64, 63)))})
+		case "SHLQ":
+			need(2)
+			m.writeReg(in, in.args[1], asmVal{t: Shl(m.num(in, in.args[1]), BAnd(m.num(in, in.args[0]), Const(64, 63)))})
+		case "ANDQ":
+			need(2)
+			m.writeReg(in, in.args[1], asmVal{t: BAnd(m.num(in, in.args[1]), m.num(in, in.args[0]))})
+		case "CMPQ":
+			need(2)
+			m.cmpA, m.cmpB = m.num(in, in.args[0]), m.num(in, in.args[1])
+		case "TESTQ":
+			need(2)
+			m.cmpA, m.cmpB = BAnd(m.num(in, in.args[0]), m.num(in, in.args[1])), Const(64, 0)
+		case "JMP":
+			need(1)
+			pc = m.label(in, in.args[0])
+		case "JAE", "JCC", "JB", "JCS", "JLO", "JHS", "JA", "JHI", "JBE", "JLS", "JE", "JEQ", "JNE", "JZ", "JNZ", "JL", "JLT", "JGE", "JG", "JGT", "JLE":
+			need(1)
+			if m.cmpA == nil {
+				m.bad(in, "conditional jump without preceding compare")
+			}
+			var c *Term
+			a, b := m.cmpA, m.cmpB
+			switch in.op {
+			case "JAE", "JCC", "JHS":
+				c = Ule(b, a)
+			case "JB", "JCS", "JLO":
+				c = Ult(a, b)
+			case "JA", "JHI":
+				c = Ult(b, a)
+			case "JBE", "JLS":
+				c = Ule(a, b)
+			case "JE", "JEQ", "JZ":
+				c = Eq(a, b)
+			case "JNE", "JNZ":
+				c = Not(Eq(a, b))
+			case "JL", "JLT":
+				c = Slt(a, b)
+			case "JGE":
+				c = Sle(b, a)
+			case "JG", "JGT":
+				c = Slt(b, a)
+			case "JLE":
+				c = Sle(a, b)
+			}
+			if m.s.branch(c) {
+				pc = m.label(in, in.args[0])
+			}
+		case "RET":
+			return
+		default:
+			m.bad(in, "unsupported mnemonic")
+		}
+	}
+}
+
+func (m *asmMachine) label(in asmInstr, l string) int {
+	i, ok := m.fn.labels[l]
+	if !ok {
+		m.bad(in, "unknown label "+l)
+	}
+	return i
+}
+
+// asmExec runs the assembly body bound to the body-less Go function fn.
+func (s *State) asmExec(fn *ssa.Function, args []Value) (Value, bool) {
+	if fn.Pkg == nil || !strings.HasPrefix(fn.Pkg.Pkg.Path(), repoModule) {
+		return nil, false
+	}
+	if s.prog.Arch != "" && s.prog.Arch != "amd64" {
+		return nil, false
+	}
+	rel := strings.TrimPrefix(strings.TrimPrefix(fn.Pkg.Pkg.Path(), repoModule), "/")
+	fns, err := parseAsmDir(filepath.Join(s.prog.RepoDir, rel))
+	if err != nil {
+		panic(execAbort{"unsupported", "asm parse: " + err.Error()})
+	}
+	af := fns[fn.Name()]
+	if af == nil {
+		return nil, false
+	}
+	if s.fnSeen != nil {
+		s.fnSeen[fn.String()+" [assembly "+filepath.Base(af.file)+"]"] = true
+	}
+	m := &asmMachine{s: s, fn: af, regs: map[string]asmVal{}, params: map[string]asmVal{}, ret: map[int]*Term{}}
+	// lay out the arguments in the Go ABI0 frame: slices take 3 words, integers 1 word
+	off := 0
+	sig := fn.Signature
+	for i, a := range args {
+		switch v := a.(type) {
+		case Slice:
+			if v.P.Obj == nil {
+				// nil slice: a pointer nobody may dereference
+				o := s.newRaw(Const(64, 0), true, "nil-slice")
+				v.P = Ptr{Obj: o}
+			}
+			p := v.P
+			m.params[fmt.Sprint(off)] = asmVal{t: Const(64, 0), p: &p}
+			m.params[fmt.Sprint(off+8)] = asmVal{t: v.Len}
+			m.params[fmt.Sprint(off+16)] = asmVal{t: v.Cap}
+			off += 24
+		case *Term:
+			_, signed, _ := intWidth(sig.Params().At(i).Type())
+			m.params[fmt.Sprint(off)] = asmVal{t: Resize(v, 64, signed)}
+			off += 8
+		default:
+			panic(execAbort{"unsupported", fmt.Sprintf("asm argument of type %T", a)})
+		}
+	}
+	m.run()
+	rt := sig.Results()
+	if rt.Len() != 1 {
+		panic(execAbort{"unsupported", "asm function with other than one result"})
+	}
+	w, _, ok := intWidth(rt.At(0).Type())
+	if !ok {
+		panic(execAbort{"unsupported", "asm result type"})
+	}
+	r, ok := m.ret[off]
+	if !ok {
+		panic(execAbort{"unsupported", fmt.Sprintf("asm function did not write its result slot ret+%d(FP)", off)})
+	}
+	return Extract(r, w-1, 0), true
+}
+
+var _ = types.Typ
